@@ -10,6 +10,7 @@ import (
 // zzRT is the stub RoundTripper: it records the address of every call and answers according to the
 // scripted health of that address (down: ErrDial).
 type zzRT struct {
+	slowPing bool // a probe takes time
 	up     map[string]bool
 	calls  []string
 	pings  []string
@@ -50,6 +51,11 @@ func (r *zzRT) NewStream(addr, key string) (Stream, error) {
 }
 func (r *zzRT) Ping(addr string) error {
 	r.pings = append(r.pings, addr)
+	if r.slowPing {
+		res := r.result(addr)
+		vYield()
+		return res
+	}
 	return r.result(addr)
 }
 func (r *zzRT) Close() error {
@@ -90,8 +96,15 @@ func zzH_CLT() {
 		c.Update("a", "b")
 		current = zzSet([]string{"a", "b"})
 	}
+	rt.slowPing = vParam("clt.slowping", 0) == 1
+	nops := 4
+	if rt.slowPing {
+		nops = 5
+	}
 	for step := 0; step < S; step++ {
-		switch vChoose("op", 4) {
+		switch vChoose("op", nops) {
+		case 4:
+			vYield() // let probes make partial progress
 		case 0:
 			t := zzTargetMenu[vChoose("targets", len(zzTargetMenu))]
 			c.Update(t...)
@@ -131,3 +144,46 @@ func zzH_CLT() {
 }
 
 var _ = time.Second
+
+// zzH_C18u: refreshing the target list. Update(a,b), the detector finds both, Update again with the
+// same set in another order (or another set); once a detector round has probed every current target
+// after the last Update, a call must be routed at once (no waiting, no time-out) to a current target.
+func zzH_C18u() {
+	rt := &zzRT{up: map[string]bool{"a": true, "b": true, "c": true}}
+	c := NewClient(nil)
+	c.Transport = rt
+	c.Scheduling = Scheduling(vChoose("policy", 3))
+	vSetClockStep(1)
+	vSetTimerBudget(vParam("c18.ticks", 3))
+	c.Update("a", "b")
+	vQuiesce()
+	second := [][]string{{"b", "a"}, {"a", "b"}, {"a"}, {"b", "c"}}[vChoose("second", 4)]
+	c.Update(second...)
+	p0 := len(rt.pings)
+	vQuiesce()
+	probed := map[string]bool{}
+	for _, a := range rt.pings[p0:] {
+		probed[a] = true
+	}
+	all := true
+	for _, a := range second {
+		if !probed[a] {
+			all = false
+		}
+	}
+	if all {
+		// a full detector round has happened since the Update: the live list must be populated
+		c.lock.Lock()
+		n := len(c.list)
+		c.lock.Unlock()
+		vAssert(n == len(second), "live-list-rebuilt-after-update")
+		k := len(rt.calls)
+		err := c.Call("S.M", nil, nil)
+		vAssert(err == nil && len(rt.calls) == k+1, "call-routed-at-once-when-targets-are-live")
+		if len(rt.calls) == k+1 {
+			vAssert(zzSet(second)[rt.calls[k]], "routed-to-current-target")
+		}
+	}
+	c.Close()
+	vReach("end")
+}
